@@ -324,18 +324,87 @@ Print Assumptions C15_reset_stream_at_regression.
     In the packet-level model that is replayed against real connections with and without a qlog
     tracer, the first failing frame decides the packet: the verdict (= the connection's close
     error) and the state do not depend on the frames behind it. *)
-Theorem C15_packet_first_error_decides : forall pre s s1 f o s2 e fr rest rest',
-  handle_packet s pre = (s1, None) -> gframe_op f = Some o -> tstep s1 o = (s2, RErr e, fr) ->
-  handle_packet s (pre ++ f :: rest) = (s2, Some e) /\
-  handle_packet s (pre ++ f :: rest) = handle_packet s (pre ++ f :: rest').
+Theorem C15_packet_first_error_decides : forall pre g g1 fr0 f o s2 e fr rest rest',
+  handle_packet g pre = (g1, None, fr0) -> gframe_op f = Some o ->
+  tstep (g_sm g1) o = (s2, RErr e, fr) ->
+  handle_packet g (pre ++ f :: rest) =
+    (mkG s2 (g_cancel g1) (g_final g1) (g_done g1) (g_nextA g1), Some e, fr0 ++ fr) /\
+  handle_packet g (pre ++ f :: rest) = handle_packet g (pre ++ f :: rest').
 Proof.
   intros. split; [eapply handle_packet_first_error; eauto|eapply handle_packet_rest_irrelevant; eauto].
 Qed.
 Print Assumptions C15_packet_first_error_decides.
 
 Example C15_packet_example :
-  snd (handle_packet (init_sm false 2 2) [GStream 8; GStream 0]) = Some ErrLimit /\
-  snd (handle_packet (init_sm false 2 2) [GPing; GStopSending 2; GStream 0; GStream 4]) = Some ErrState /\
-  i_nextOpen (s_ib (fst (handle_packet (init_sm false 2 2) [GStream 8; GStream 0]))) = 0.
+  snd (fst (handle_packet (g_init false 2 2) [GStream 8; GStream 0])) = Some ErrLimit /\
+  snd (fst (handle_packet (g_init false 2 2) [GPing; GStopSending 2; GStream 0; GStream 4])) = Some ErrState /\
+  i_nextOpen (s_ib (g_sm (fst (fst (handle_packet (g_init false 2 2) [GStream 8; GStream 0]))))) = 0.
 Proof. vm_compute. repeat split; reflexivity. Qed.
 Print Assumptions C15_packet_example.
+
+(** a stream completed through the connection: accepted, abandoned by the application, final size
+    told by the peer's FIN - the MAX_STREAMS for the freed slot is queued by the packet that carries
+    the FIN, and the peer may then open one more stream *)
+Example C15_glue_completion_example :
+  snd (glue_run (g_init false 1 1)
+         [SPacket [GStream 0]; SApp (GAAccept false); SPacket [GStream 4]; SApp (GAAbandon 0);
+          SPacket [GStreamFin 0; GStream 4]]) =
+  [(0, []); (0, []); (ErrLimit, [])] \/
+  snd (glue_run (g_init false 1 1)
+         [SPacket [GStream 0]; SApp (GAAccept false); SApp (GAAbandon 0);
+          SPacket [GStreamFin 0; GStream 4]]) =
+  [(0, []); (0, []); (0, []); (0, [FMax false 2])].
+Proof. right. vm_compute. reflexivity. Qed.
+Print Assumptions C15_glue_completion_example.
+
+(** * Round 4 *)
+
+(** (b) OpenStreamSync callers are woken exactly when the limit allows it: in every reachable state
+    of an outgoing map the head of the queue holds a wake-up token iff a stream can be opened, and
+    nobody behind it holds one. *)
+Theorem C15_wakeup_iff_credit : forall uni client m w t q, oreach uni client m ->
+  o_queue m = (w, t) :: q ->
+  (t = true <-> o_next m <= o_max m) /\ Forall (fun e => snd e = false) q.
+Proof. exact out_wakeup_iff_credit. Qed.
+Print Assumptions C15_wakeup_iff_credit.
+
+(** (c) A 0-RTT rejection makes the four maps start over: stream IDs restart at the first ID of each
+    class, the advertised incoming limits are the configured ones again, the peer's limits are
+    forgotten, no stream keeps RESET_STREAM_AT; no control frame is queued. *)
+Theorem C15_reset_restarts : forall s s' r fr, tstep s OReset = (s', r, fr) ->
+  s_ob s' = init_out false (s_client s) /\ s_ou s' = init_out true (s_client s) /\
+  s_ib s' = init_in false (s_client s) (s_maxBidi s) /\ s_iu s' = init_in true (s_client s) (s_maxUni s) /\
+  s_rsaIDs s' = [] /\ fr = [].
+Proof. exact sm_reset_restarts. Qed.
+Print Assumptions C15_reset_restarts.
+
+(** (c) Until UseResetMaps, Open / OpenSync / Accept fail with Err0RTTRejected and change nothing. *)
+Theorem C15_reset_blocks_api : forall s uni w c a, s_reset s = true ->
+  tstep s (OOpen uni) = (s, RErr Err0RTT, []) /\
+  tstep s (OSyncCall uni w c) = (s, RErr Err0RTT, []) /\
+  tstep s (OAcceptCall uni a) = (s, RErr Err0RTT, []).
+Proof. exact sm_reset_blocks_api. Qed.
+Print Assumptions C15_reset_blocks_api.
+
+(** (c) through the connection glue: a client opens streams with restored parameters, 0-RTT is
+    rejected, the application abandons an old stream (no effect), moves on, and the IDs start over. *)
+Example C15_glue_0rtt_example :
+  map fst (snd (glue_run (g_init true 2 2)
+    [SApp (GAParams 2 2 false); SApp (GAOpen false); SApp (GAOpen false); SApp GAReject0RTT;
+     SApp (GAOpen false); SApp GAOldStream; SApp GAUseReset; SApp (GAOpen false);
+     SApp (GAParams 1 1 false); SApp (GAOpen false); SApp (GAOpen false)])) =
+  [0; 0; 4; 0; - Err0RTT; 0; 0; - ErrLimitReached; 0; 0; - ErrLimitReached].
+Proof. vm_compute. reflexivity. Qed.
+Print Assumptions C15_glue_0rtt_example.
+
+(** (a) Credit is re-issued exactly as streams fully complete: as long as the peer has opened
+    fewer than 2^60 - N streams, streams in the map + streams the peer may still open = N in every
+    reachable state - every stream that leaves the map frees exactly one slot, immediately (the
+    monitors incoming/credit-reissue and streamsglue/maxstreams/credit check this on the code). *)
+Theorem C15_credit_exact : forall uni client N ops m outs, 0 <= N ->
+  Forall (iop_ok (first_incoming uni client)) ops ->
+  irun (init_in uni client N) ops = (m, outs) ->
+  in_opened m + N <= SM_MaxStreamCount ->
+  in_credit m + zlen (i_streams m) = N.
+Proof. exact in_credit_exact. Qed.
+Print Assumptions C15_credit_exact.
